@@ -45,6 +45,11 @@ Definition one_minus_cutoff : PrimFloat.float := (1 - cutoff)%float.
 Definition q2s (t sps : PrimFloat.float) : Z :=
   trunc (t * sps + one_minus_cutoff)%float.
 
+(** quantize_to_step(unquantized_seconds, steps_per_second, quantize_cutoff=c) for an explicit cutoff
+    ([q2s] is the instance at the regenerated default, by definition of [one_minus_cutoff]) *)
+Definition q2s_cut (c t sps : PrimFloat.float) : Z :=
+  trunc (t * sps + (1 - c))%float.
+
 (** steps_per_quarter_to_steps_per_second(steps_per_quarter:int, qpm:float) =
     steps_per_quarter * qpm / 60.0  (int converted to float, two roundings) *)
 Definition sps_rel (spq : Z) (qpm : PrimFloat.float) : PrimFloat.float :=
